@@ -20,6 +20,7 @@ live /repo for that long would have leaked into other builders' checks.)
 import json
 
 from vlib import ToolError
+from checks.relayproto_common import binding_selftest
 
 META = {
     "level": "model_checking",
@@ -77,6 +78,19 @@ def execute(ctx, cases, name):
         raise ToolError("harness returned %d observations for %d cases" % (len(obs), len(cases)))
     for c, o in zip(cases, obs):
         judge(ctx, c, o)
+    # binding self-test on one multi-call case: every corrupted observation / flipped expectation must be rejected
+    for c, o in zip(cases, obs):
+        if len(c["calls"]) >= 3 and c["seg"] and not o.get("panic"):
+            def bump(field):
+                return lambda c_, o_: o_["calls"][1].__setitem__(field, o_["calls"][1][field] + 1)
+            binding_selftest(ctx, judge, c, o, [
+                ("piece length", bump("len")), ("piece segment size", bump("seg")), ("piece ecn", bump("ecn")),
+                ("rest length", bump("rest_len")), ("rest segment size", bump("rest_seg")),
+                ("bytes out of place", lambda c_, o_: o_["calls"][0].__setitem__("bytes_in_place", False)),
+                ("concatenation", lambda c_, o_: o_.__setitem__("concat_eq", False)),
+                ("expected piece length", lambda c_, o_: c_["calls"][0].__setitem__("len", c_["calls"][0]["len"] + 1)),
+                ("panic", lambda c_, o_: o_.__setitem__("panic", "boom"))])
+            break
 
 
 def judge(ctx, c, o):
